@@ -648,6 +648,33 @@ fn corpus() -> Vec<String> {
         let m = vec![vec![v; 32]; 3];
         push(format!("k=u8 R=3 mi=96 t={} m={}", v, show_matrix(&m)), &mut out);
     }
+    // row indices that do not fit 8 bits (the vector kernels keep the winning row of each
+    // column in 16- / 32-bit lanes): unique maxima in rows >= 256, and a tie between a low
+    // and a high row of the same column
+    for &(rows, r, c) in &[(300usize, 256usize, 5usize), (300, 299, 31), (300, 255, 16), (520, 512, 31), (520, 519, 8)] {
+        let mut m = vec![vec![3u32; 32]; rows];
+        m[r][c] = 200;
+        push(format!("k=u8 R={} mi={} t=200 m={}", rows, rows * 32, show_matrix(&m)), &mut out);
+        let mut m = vec![vec![fbits(-7.5); 32]; rows];
+        m[r][c] = fbits(-1.0);
+        push(
+            format!("k=f32 R={} mi={} t={} m={}", rows, rows * 32, fbits(-1.0), show_matrix(&m)),
+            &mut out,
+        );
+    }
+    {
+        let mut m = vec![vec![3u32; 32]; 300];
+        m[10][20] = 200;
+        m[290][20] = 200;
+        push(format!("k=u8 R=300 mi=9600 t=200 m={}", show_matrix(&m)), &mut out);
+        let mut m = vec![vec![fbits(-7.5); 32]; 300];
+        m[10][20] = fbits(-1.0);
+        m[290][20] = fbits(-1.0);
+        push(format!("k=f32 R=300 mi=9600 t={} m={}", fbits(-1.0), show_matrix(&m)), &mut out);
+        let mut m = vec![vec![fbits(-7.5); 16]; 300];
+        m[290][13] = fbits(-1.0);
+        push(format!("k=f16 R=300 mi=4800 t={} m={}", fbits(-1.0), show_matrix(&m)), &mut out);
+    }
     // no rows
     push("k=f32 R=0 mi=0 t=0 m=-".to_string(), &mut out);
     push("k=f16 R=0 mi=0 t=0 m=-".to_string(), &mut out);
